@@ -3467,3 +3467,117 @@ def gen_resolve(lib_dir: str, header: str) -> str:
     out += RESOLVE_SKELETON
     out += "end Dltype.Gen\n"
     return out
+
+
+# =====================================================================================================================
+# the messages of the error classes (_errors.py: `__init__` + `__str__`)  ->  Generated/Errors.lean
+# =====================================================================================================================
+#
+# For every error class whose message is built from the facts of a report: the `__init__` assignments (`self._f = p`, `self._f = p or
+# "default"`) are substituted into the f-string `__str__` returns; `", ".join(self._context.keys())` is the only helper statement read.
+# Fields are typed by the table below (a name = text, a size / index = int).  DLTypeDtypeError / DLTypeUnsupportedTensorTypeError /
+# DLTypeScopeProviderError print library objects (dtypes, classes, a provider): their text is outside the model.
+
+ERR_PARAM_TYPES = {"index": "Int", "expected_shape": "Int", "actual": "Int", "expected": "Int", "tensor_name": "List Char", "missing_ref": "List Char",
+                   "current_context": "List (List Char)"}
+ERR_CLASSES = {"DLTypeShapeError": "shapeMessage", "DLTypeNDimsError": "ndimsMessage", "DLTypeDuplicateError": "duplicateMessage", "DLTypeInvalidReferenceError": "invalidRefMessage"}
+
+ERR_HEADER = """/-- `a or b` on text: the first when it is non-empty (None and "" are both falsy) -/
+def orText (a b : List Char) : List Char := if a.isEmpty then b else a
+
+/-- `str(i)` of an int -/
+def fmtI (i : Int) : List Char := (toString i).toList
+
+/-- `sep.join(parts)` -/
+def joinText (sep : List Char) : List (List Char) → List Char
+  | [] => []
+  | [x] => x
+  | x :: rest => x ++ sep ++ joinText sep rest
+
+"""
+
+
+def gen_errors(lib_dir: str, header: str) -> str:
+    with open(os.path.join(lib_dir, "_errors.py")) as fh:
+        mod = ast.parse(fh.read(), filename="_errors.py")
+    out = header + "set_option linter.unusedVariables false\nnamespace Dltype.Gen\n\n" + ERR_HEADER
+    for cname, fname in ERR_CLASSES.items():
+        cls = next((n for n in mod.body if isinstance(n, ast.ClassDef) and n.name == cname), None)
+        if cls is None:
+            raise TErr(f"_errors.py: class {cname} not found")
+        init = next((m for m in cls.body if isinstance(m, ast.FunctionDef) and m.name == "__init__"), None)
+        strm = next((m for m in cls.body if isinstance(m, ast.FunctionDef) and m.name == "__str__"), None)
+        if init is None or strm is None:
+            raise TErr(f"{cname}: __init__ / __str__ not found")
+        params = [a.arg for a in init.args.args[1:]]
+        if init.args.kwonlyargs or init.args.vararg or init.args.kwarg:
+            raise TErr(f"{cname}.__init__: parameters")
+        fields: dict = {}
+
+        def text(e, env) -> tuple[str, str]:
+            """(Lean term, type) of an expression over the parameters / fields / locals"""
+            if isinstance(e, ast.Name) and e.id in env:
+                return env[e.id]
+            if isinstance(e, ast.Constant) and isinstance(e.value, str):
+                return _lstr(e.value) + ".toList", "List Char"
+            if isinstance(e, ast.Dict) and not e.keys:
+                return "([] : List (List Char))", "List (List Char)"
+            if isinstance(e, ast.BoolOp) and isinstance(e.op, ast.Or) and len(e.values) == 2:
+                (a, ta), (b, tb) = text(e.values[0], env), text(e.values[1], env)
+                if ta == tb == "List Char":
+                    return f"(orText {a} {b})", "List Char"
+                if ta == tb == "List (List Char)":
+                    return f"(if {a}.isEmpty then {b} else {a})", ta
+                raise TErr(f"{cname}: `or` between {ta} and {tb}")
+            if isinstance(e, ast.Attribute) and isinstance(e.value, ast.Name) and e.value.id == "self" and e.attr in fields:
+                return fields[e.attr]
+            if (isinstance(e, ast.Call) and isinstance(e.func, ast.Attribute) and e.func.attr == "join" and isinstance(e.func.value, ast.Constant) and len(e.args) == 1
+                    and isinstance(e.args[0], ast.Call) and isinstance(e.args[0].func, ast.Attribute) and e.args[0].func.attr == "keys" and not e.args[0].args):
+                inner, t = text(e.args[0].func.value, env)
+                if t != "List (List Char)":
+                    raise TErr(f"{cname}: join over {t}")
+                return f"(joinText {_lstr(e.func.value.value)}.toList {inner})", "List Char"
+            if isinstance(e, ast.JoinedStr):
+                parts = []
+                for v in e.values:
+                    if isinstance(v, ast.Constant):
+                        parts.append(_lstr(v.value) + ".toList")
+                    elif isinstance(v, ast.FormattedValue) and v.conversion == -1 and v.format_spec is None:
+                        tm, ty = text(v.value, env)
+                        parts.append(tm if ty == "List Char" else f"fmtI {tm}" if ty == "Int" else None)
+                        if parts[-1] is None:
+                            raise TErr(f"{cname}: a {ty} inside an f-string")
+                    else:
+                        raise TErr(f"{cname}: f-string part `{_src(v)[:60]}`")
+                return "(" + " ++ ".join(parts) + ")", "List Char"
+            raise TErr(f"{cname}: expression `{_src(e)[:100]}`")
+
+        env = {}
+        for p in params:
+            if p == "error_ctx":
+                continue
+            if p not in ERR_PARAM_TYPES:
+                raise TErr(f"{cname}.__init__: parameter `{p}`")
+            env[p] = (p, ERR_PARAM_TYPES[p])
+        for s in _strip(init.body):
+            src = _src(s)
+            if src.startswith("super().__init__("):
+                continue
+            if not (isinstance(s, ast.Assign) and len(s.targets) == 1 and isinstance(s.targets[0], ast.Attribute) and _src(s.targets[0].value) == "self"):
+                raise TErr(f"{cname}.__init__: statement `{src[:100]}`")
+            fields[s.targets[0].attr] = text(s.value, env)
+        body = _strip(strm.body)
+        loc = dict(env)
+        for s in body[:-1]:
+            if not (isinstance(s, ast.Assign) and len(s.targets) == 1 and isinstance(s.targets[0], ast.Name)):
+                raise TErr(f"{cname}.__str__: statement `{_src(s)[:100]}`")
+            loc[s.targets[0].id] = text(s.value, loc)
+        if not isinstance(body[-1], ast.Return):
+            raise TErr(f"{cname}.__str__: no return")
+        tm, ty = text(body[-1].value, loc)
+        if ty != "List Char":
+            raise TErr(f"{cname}.__str__: returns {ty}")
+        sig = " ".join(f"({p} : {ERR_PARAM_TYPES[p]})" for p in params if p != "error_ctx")
+        out += f"/-- `str({cname}({', '.join(p + '=…' for p in params if p != 'error_ctx')}))` -/\ndef {fname} {sig} : List Char :=\n  {tm}\n\n"
+    out += "end Dltype.Gen\n"
+    return out
